@@ -1724,7 +1724,7 @@ impl Block {
                                         // Compute payout based on the payload slip2
                                         //
                                         let atr_payout_for_slip =
-                                            slip2.amount * expected_atr_multiplier;
+                                            slip2.amount.saturating_mul(expected_atr_multiplier);
                                         let surplus_payout_to_subtract_from_treasury =
                                             atr_payout_for_slip - slip2.amount;
                                         let atr_fee_for_slip = atr_fee;
@@ -1769,8 +1769,9 @@ impl Block {
                                             rebroadcast_tx.to[1].amount = output2.amount;
                                             rebroadcast_tx.generate_total_fees(0, 0);
 
-                                            cv.total_payout_atr +=
-                                                surplus_payout_to_subtract_from_treasury;
+                                            cv.total_payout_atr = cv.total_payout_atr.saturating_add(
+                                                surplus_payout_to_subtract_from_treasury,
+                                            );
                                             cv.total_fees_atr += atr_fee;
 
                                             //
@@ -1803,7 +1804,7 @@ impl Block {
                                         //  Single-slip case
                                         //
                                         let atr_payout_for_slip =
-                                            output.amount * expected_atr_multiplier;
+                                            output.amount.saturating_mul(expected_atr_multiplier);
                                         let surplus_payout_to_subtract_from_treasury =
                                             atr_payout_for_slip - output.amount;
                                         let atr_fee_for_slip = atr_fee;
@@ -1832,8 +1833,9 @@ impl Block {
                                             //
                                             // track payouts and fees
                                             //
-                                            cv.total_payout_atr +=
-                                                surplus_payout_to_subtract_from_treasury;
+                                            cv.total_payout_atr = cv.total_payout_atr.saturating_add(
+                                                surplus_payout_to_subtract_from_treasury,
+                                            );
                                             cv.total_fees_atr += atr_fee_for_slip;
 
                                             //
